@@ -2,7 +2,7 @@ import StepModel.ExpDecl
 /-! Line-protocol driver for the exppp model (property C07).
 
   pp <linelen> <t:0|1> <c:0|1> SCHEMA…      -> `P <escaped text>` | `parse-error`
-  ast <tok>*                                 -> `A <prefix form of norm (parse toks)>` | `parse-error`
+  ast <tok>*                                 -> `A <prefix form of normSpec (parse toks)>` | `parse-error`
   toks <tok>*                                -> `T <tokens of the printed parse>`       | `parse-error`
 Expressions are given as *source token lists* (`X <n> tok…`); the model parses them with `Express.parse`.
 -/
@@ -165,7 +165,7 @@ def handle (line : String) : String :=
   | "ast" :: rest =>
     match toksOfWords rest with
     | some ts => match parse ts with
-      | some e => "A " ++ astStr (norm e)
+      | some e => "A " ++ astStr (normSpec e)
       | none => "parse-error"
     | none => "bad-op"
   | "toks" :: rest =>
@@ -181,7 +181,9 @@ partial def loop (h : IO.FS.Stream) (out : IO.FS.Stream) : IO Unit := do
   let line ← h.getLine
   if line.isEmpty then return ()
   let o := handle line
-  if o ≠ "" then out.putStrLn o
+  if o ≠ "" then
+    out.putStrLn o
+    out.flush
   loop h out
 
 def main : IO Unit := do
